@@ -20,7 +20,8 @@ UnaryOps == {"wrap_pie", "password_wrap", "public_key", "display", "debug", "exp
              "clone", "private_field", "unseal_key_with", "seal_to"}
 \* operations on tokens
 TokenOps == {"decrypt_encrypted", "verify_signed", "verify_encrypted", "decrypt_signed",
-             "display_sealed", "display_unsealed", "serde_sealed", "serde_unsealed", "claims_of_sealed", "footer_unverified"}
+             "display_sealed", "display_unsealed", "serde_sealed", "serde_unsealed", "claims_of_sealed", "footer_unverified",
+             "footer_field_of_sealed", "payload_field_of_sealed", "claims_of_unsealed", "footer_of_unsealed"}
 
 \* operations the property does not speak about for key-sealing (PKE) kinds are not probed for them,
 \* and Debug is only demanded to be absent for kinds that hold secrets
@@ -69,6 +70,10 @@ Permitted(p) ==
     [] p.op = "serde_unsealed" -> FALSE
     [] p.op = "claims_of_sealed" -> FALSE                                \* claims are reachable only after unsealing
     [] p.op = "footer_unverified" -> TRUE
+    [] p.op = "footer_field_of_sealed" -> FALSE                          \* (C12) the footer of a sealed token only through the accessor named unverified
+    [] p.op = "payload_field_of_sealed" -> FALSE
+    [] p.op = "claims_of_unsealed" -> TRUE
+    [] p.op = "footer_of_unsealed" -> TRUE
 
 \* ---- meta-properties of the matrix (checked by MC_Typing) -----------------
 \* every forbidden key-operation point differs from a permitted one in exactly one dimension
